@@ -20,7 +20,49 @@ def tlc_plans(rep, work):
     return plans
 
 
+_ZONE_RE = None
+_ZONE_TABLES = {}
+
+
+def zone_tables(text):
+    """pytz transition tables (the definition of each zone) for the zone names written after date-times in a ZINC text"""
+    global _ZONE_RE
+    import re
+    import pytz
+    import datetime
+    if _ZONE_RE is None:
+        _ZONE_RE = re.compile(r'(?:[+-]\d\d:\d\d|Z) ([A-Z][A-Za-z0-9_+\-]*)')
+    out = []
+    for name in sorted(set(_ZONE_RE.findall(text))):
+        if name not in _ZONE_TABLES:
+            olson = [n for n in pytz.all_timezones if n == name or n.split('/')[-1] == name and n.count('/') == 1]
+            tab = None
+            if olson:
+                tz = pytz.timezone(sorted(olson, key=lambda n: (n != name, n))[0])
+                tt = getattr(tz, '_utc_transition_times', None)
+                if not tt:
+                    off = int(tz.utcoffset(datetime.datetime(2000, 1, 1)).total_seconds())
+                    tab = {'name': absval.cps(name), 'pre': off, 'trans': []}
+                else:
+                    info = tz._transition_info
+                    trans = []
+                    for t, inf in zip(tt, info):
+                        if t.year <= 1:
+                            continue
+                        days = (t - datetime.datetime(1970, 1, 1)).days
+                        secs = (t - datetime.datetime(1970, 1, 1)).seconds
+                        trans.append([days, secs, int(inf[0].total_seconds())])
+                    tab = {'name': absval.cps(name), 'pre': int(info[0][0].total_seconds()), 'trans': trans}
+            _ZONE_TABLES[name] = tab
+        if _ZONE_TABLES[name] is not None:
+            out.append(_ZONE_TABLES[name])
+    return out
+
+
 def judge_cases(rep, work, cases, label, shards=None):
+    for c in cases:
+        if c.get('k') == 'denotes' and 'zones' not in c:
+            c['zones'] = zone_tables(''.join(chr(x) for x in c['text'])) if c.get('strict') else []
     """cases: list of dicts with unique 'id' (1..n in order).  Returns {id: (verdict, clause, pos)}."""
     n = len(cases)
     shards = shards or max(1, min(NCPU // 2, n // 150 + 1))
@@ -69,10 +111,14 @@ def build_grids(hs, plans, tier, rng):
                 l2 = rng.choice(cat.labels(p['kind2']))
                 out.append(({'t': 'pair', 'kind': p['kind'], 'kind2': p['kind2'], 'ver': p['ver'],
                              'payload': l1, 'payload2': l2}, ('pair', p, l1, l2)))
+    for ver in ('2.0', '3.0'):
+        out.append(({'t': 'empty', 'kind': 'none', 'pos': 'none', 'ver': ver, 'payload': 'empty'}, ('empty', ver)))
     return cat, out
 
 
 def make(cat, recipe):
+    if recipe[0] == 'empty':
+        return cat.empty_grid(recipe[1])
     if recipe[0] == 'place':
         return cat.place(recipe[1], recipe[2])
     return cat.pair(recipe[1], recipe[2], recipe[3])
@@ -95,8 +141,13 @@ def run_zinc(rep, tier, want):
         # multi-grid documents
         for k in range(12 if tier == 'quick' else 200):
             pick = rng.sample(items, rng.randint(2, 3))
+            if k % 3 == 0:      # a header-only grid somewhere in the document
+                pick.insert(rng.randint(0, len(pick)), [it for it in items if it[0]['t'] == 'empty'][k % 2])
             docs.append(({'t': 'multi', 'of': [m for m, _ in pick], 'payload': 'multi'},
                          [make(cat, r) for _, r in pick], False))
+        # every mapped zone, winter and summer
+        for k, zg in enumerate(cat.zone_sweep(tier)):
+            docs.append(({'t': 'zones', 'kind': 'dt', 'pos': 'cell', 'ver': str(zg.version), 'payload': 'zone_sweep', 'n': k}, [zg], True))
         # seeded random deep layouts (nesting depth <= 3)
         for k in range(150 if tier == 'quick' else 3000):
             ver = rng.choice(['2.0', '3.0', '3.0'])
@@ -234,6 +285,10 @@ def replay(prop, path):
     def build(m):
         if m['t'] == 'random':
             return gengrid.Catalogue(hs, random.Random(m['rseed'])).random_grid(m['ver'])
+        if m['t'] == 'empty':
+            return cat.empty_grid(m['ver'])
+        if m['t'] == 'zones':
+            return gengrid.Catalogue(hs, random.Random(0)).zone_sweep('thorough')[m['n']]
         if m['t'] == 'single':
             return cat.place({'kind': m['kind'], 'pos': m['pos'], 'ver': m['ver']}, m['payload'])
         return cat.pair({'kind': m['kind'], 'kind2': m['kind2'], 'ver': m['ver']}, m['payload'], m['payload2'])
